@@ -786,6 +786,7 @@ func profile(name string) Profile {
 		set(3, "RunOptimize", "Clone", "Detach")
 		set(2, alg...)
 		set(2, "FlipS", "AddOffset", "FastOr", "HeapOr") // static results derived from (frozen / zero-copy) views, written to later
+		set(2, "DenseRT")                                // bitmaps that alias a caller's word slice, then serialized
 		set(2, "Equals", "Card")
 		set(5, "Build")
 	case "parallel": // C12
